@@ -260,7 +260,8 @@ class AlignInt(AbsInt):
         fn = t.get('fn') or ''
         if any(fn.endswith(x) for x in self.extra_sinks):
             args = [self.operand(st, b, frame, a) for a in t['args']]
-            self.async_calls.append((b.path, bi, fn, t.get('name') or fn.rsplit('::', 1)[-1], args, st.copy(), frame, t))
+            if not self.quiet:
+                self.async_calls.append((b.path, bi, fn, t.get('name') or fn.rsplit('::', 1)[-1], args, st.copy(), frame, t))
             if t['t'] < 0:
                 return []
             res = self.ret_opaque(st, b, frame, bi, t)
@@ -270,7 +271,8 @@ class AlignInt(AbsInt):
         if t.get('trait') == 'ops::Qcow2IoOps' or self.is_async_fn(fn) or any(fn.endswith(x) for x in self.sync_sinks):
             args = [self.operand(st, b, frame, a) for a in t['args']]
             rec = (b.path, bi, fn, t.get('name') or fn.rsplit('::', 1)[-1], args, st.copy(), frame, t)
-            (self.trait_calls if t.get('trait') == 'ops::Qcow2IoOps' else self.async_calls).append(rec)
+            if not self.quiet:
+                (self.trait_calls if t.get('trait') == 'ops::Qcow2IoOps' else self.async_calls).append(rec)
             if t.get('trait') == 'ops::Qcow2IoOps' or self.is_async_fn(fn):
                 if t['t'] < 0:
                     return []
